@@ -189,6 +189,15 @@ theorem fencing_every_run (env : Env) (db0 : Db) (h0 : LegalTasks db0) (cs1 cs2 
     TaskMono ((Sys.boot env d (defs d) db0).run cs1).db ((Sys.boot env d (defs d) db0).run (cs1 ++ cs2)).db :=
   task_discipline_between d env db0 h0 cs1 cs2 h1 h2
 
+/-- a task that is completed or timed out in some reachable state (e.g. completed together with its promise, C08.finished_together)
+    is the very same row in every later state of every continuation of the run: it can never be claimed again -/
+theorem finished_task_is_final_every_run (env : Env) (db0 : Db) (h0 : LegalTasks db0) (cs1 cs2 : List Choice)
+    (h1 : ∀ c ∈ cs1, WInv.ChoiceOk LegalCpl c) (h2 : ∀ c ∈ cs2, WInv.ChoiceOk LegalCpl c)
+    (i : Nat) (r : TaskRow) (hr : ((Sys.boot env d (defs d) db0).run cs1).db.tasks[i]? = some r) (hf : r.state = 8 ∨ r.state = 16) :
+    ((Sys.boot env d (defs d) db0).run (cs1 ++ cs2)).db.tasks[i]? = some r := by
+  obtain ⟨r', hr', hle⟩ := task_persists (fencing_every_run d env db0 h0 cs1 cs2 h1 h2) i r hr
+  rw [hr', finished_is_final hle hf]
+
 /-- … and every stored task is, in every reachable state, in one of the five states the store writes -/
 theorem legal_states_every_run (env : Env) (db0 : Db) (h0 : LegalTasks db0) (cs : List Choice)
     (h : ∀ c ∈ cs, WInv.ChoiceOk LegalCpl c) : LegalTasks ((Sys.boot env d (defs d) db0).run cs).db :=
